@@ -87,6 +87,19 @@ def gen(rng):
     }
 
 
+PINS = {}
+CUR = {'k': None}
+
+
+def pin(case, sig):
+    """a replay visits only the crash point that produced ``sig``"""
+    import copy
+    c = copy.deepcopy(case)
+    if sig in PINS:
+        c['only_crash'] = PINS[sig]
+    return c
+
+
 def check(sim, case, st):
     spec = case['procs'][-1]
     cmd = posixpath.basename(spec['argv'][0])
@@ -99,6 +112,7 @@ def check(sim, case, st):
     bag0 = None
     final = None
     final_bag_keys = None
+    PINS.clear()
     for k, n, before, r, snap in EC.sweep(sim, case, st):
         if k == 'full':
             # the bag of the initial state: (re)build and scan
@@ -119,14 +133,16 @@ def check(sim, case, st):
                 killop = 'sigint:' + ev[3]
                 st.probes['sigint-deliveries'] += 1
         where = 'k=%s/%s before %s' % (k, n, killop)
+        CUR['k'] = ['intr', k[1]] if isinstance(k, tuple) else ['kill', k]
 
         def bad(clause, msg, e=None):
             ek = '-'
             if e is not None:
                 pt = OR.payload_tree(before, e).get('')
                 ek = {'f': 'file', 'd': 'dir', 'l': 'symlink'}.get(pt[0], 'x') if pt else 'nopayload'
-            res.append(('C15/%s/%s/%s/%s/%s' % (clause, cmd, ek, 'cross' if note.get('cross') else 'same', killop or 'end'),
-                        '%s (kill %s; argv %r stdin %r)' % (msg, where, spec['argv'], spec.get('stdin'))))
+            sig = 'C15/%s/%s/%s/%s/%s' % (clause, cmd, ek, 'cross' if note.get('cross') else 'same', killop or 'end')
+            PINS.setdefault(sig, list(CUR['k']))
+            res.append((sig, '%s (kill %s; argv %r stdin %r)' % (msg, where, spec['argv'], spec.get('stdin'))))
         # 1. every payload still under files/ that had an info before still has it
         for e in bag0:
             rt = ML.resolve(snap, e.tdir)
